@@ -154,7 +154,7 @@ func normalizeHeaderValueText(field, value string) string {
 		return normalizeOrderInsensitive(value)
 
 	case hasNormalizationHeader(normalizationHeader.byCaseInsensitive, field):
-		return strings.ToLower(value)
+		return asciiLower(value)
 
 	case hasNormalizationHeader(normalizationHeader.byTimeInsensitive, field):
 		return strings.TrimSpace(value)
@@ -162,13 +162,32 @@ func normalizeHeaderValueText(field, value string) string {
 	case field == "Authorization":
 		parts := strings.SplitN(value, " ", 2)
 		if len(parts) == 2 {
-			return strings.ToLower(parts[0]) + " " + parts[1]
+			return asciiLower(parts[0]) + " " + parts[1]
 		}
 		return value
 
 	default:
 		return value
 	}
+}
+
+// asciiLower lowercases the ASCII letters of a field value and leaves every other byte
+// alone. Case-insensitivity in HTTP is defined for ASCII only, and strings.ToLower
+// would replace each byte that is not valid UTF-8 (obs-text is legal in field values)
+// with U+FFFD, making distinct values equal.
+func asciiLower(value string) string {
+	for i := 0; i < len(value); i++ {
+		if c := value[i]; 'A' <= c && c <= 'Z' {
+			b := []byte(value)
+			for j := i; j < len(b); j++ {
+				if c := b[j]; 'A' <= c && c <= 'Z' {
+					b[j] = c + ('a' - 'A')
+				}
+			}
+			return string(b)
+		}
+	}
+	return value
 }
 
 // normalizeOrderInsensitive normalizes comma-separated values where order doesn't matter.
